@@ -304,6 +304,9 @@ class K:
     @staticmethod
     def st(x: int) -> int:
         return x
+    def ds(self, a: int) -> int:
+        \"\"\"this method is not a @staticmethod, its docstring only says the word\"\"\"
+        return a
 @pedantic
 def doc_mentions(a: int) -> int:
     \"\"\"the word @staticmethod appears in this docstring\"\"\"
@@ -329,6 +332,7 @@ CORNER_CALLS = [('K.plain(self=k, x=1)', lambda m: m.K.plain(self=m.K(), x=1)), 
                 ('real_star(a=1)', lambda m: m.real_star(a=1)), ('real_star(1, 2)', lambda m: m.real_star(1, 2)),
                 ('Plain.m(self=p, x=1)', lambda m: m.Plain.m(self=m.Plain(), x=1)), ('Plain().m(x=1)', lambda m: m.Plain().m(x=1)),
                 ('Plain()(x=1)', lambda m: m.Plain()(x=1)), ('Plain()(1)', lambda m: m.Plain()(1)),
+                ('K().ds(a=1)', lambda m: m.K().ds(a=1)),
                 ('K().plain(x="s")', lambda m: m.K().plain(x='s')), ('doc_mentions(a="s")', lambda m: m.doc_mentions(a='s'))]
 _corner = {}
 
